@@ -206,13 +206,14 @@ def LinCond (sem : Sem Int) : Prop :=
 /-- **the suffix pairs the regenerated tables yield negate each other** (plain and under `not`; `if x` / `if not x`) -/
 theorem real_pairs_negate (sem : Sem Int) (h : LinCond sem) :
     ∀ p ∈ PV.Flatten.branchPairs, ∀ vals : List Int, vals.length = p.2.2 → sem.cond p.2.1 vals = !sem.cond p.1 vals := by
-  have e : PV.Flatten.branchPairs = [("eq", "ne", 2), ("ne", "eq", 2), ("lt", "ge", 2), ("le", "gt", 2), ("gt", "le", 2), ("ge", "lt", 2),
-      ("ne", "eq", 2), ("eq", "ne", 2), ("ge", "lt", 2), ("gt", "le", 2), ("le", "gt", 2), ("lt", "ge", 2), ("nez", "eqz", 1), ("eqz", "nez", 1)] := by decide
-  rw [e]
+  -- whatever the order of the rows in the source: every pair the tables yield is one of these eight
+  have e : ∀ p ∈ PV.Flatten.branchPairs, p ∈ [("eq", "ne", 2), ("ne", "eq", 2), ("lt", "ge", 2), ("le", "gt", 2), ("gt", "le", 2), ("ge", "lt", 2),
+      ("nez", "eqz", 1), ("eqz", "nez", 1)] := by decide
   obtain ⟨h2, hz, hnz⟩ := h
   intro p hp vals hlen
+  have hp := e p hp
   simp only [List.mem_cons, List.mem_nil_iff, or_false] at hp
-  rcases hp with rfl | rfl | rfl | rfl | rfl | rfl | rfl | rfl | rfl | rfl | rfl | rfl | rfl | rfl
+  rcases hp with rfl | rfl | rfl | rfl | rfl | rfl | rfl | rfl
   all_goals first
     | (match vals, hlen with
        | [x, y], _ => simp only [h2, PV.Props.C01.icCond, Option.getD_some]; rw [Bool.eq_iff_iff]; simp; try omega)
